@@ -154,4 +154,124 @@ def render (m : Map) : String :=
   let es := (m.edges.take m.len).map (fun h => s!"{h.flags}:{h.cs}:{h.ds}")
   s!"len={m.len} " ++ (if es.isEmpty then "-" else String.intercalate "," es)
 
+/-! ## `HintMap::adjust` and `HintMap::transform`: index discipline
+
+`adjust` walks the active edges unit by unit (a single ghost edge, or a bottom / top pair: `i += 2`), looks at the
+neighbours `edges[j + 1]`, `edges[i - 1]`, records up to one entry per unit in the fixed array `saved: [_; MAX_HINTS]`
+and revisits the saved indices in a second pass (`edges[j + 1]`, `edges[j]`, `edges[j - 1]`).  It only rewrites
+`ds_coord` and `scale`, never `flags` or `cs_coord`, so the model reads the flags from the unchanged edge list; the
+outcomes of the coordinate comparisons are an oracle `ora unit which`.  `none` = index out of bounds / `usize`
+underflow panic. -/
+
+def PAIR_BOTTOM : Nat := 4
+
+/-- `Hint::is_pair`: `flags & (PAIR_BOTTOM | PAIR_TOP) != 0` -/
+def Hint.isPair (h : Hint) : Bool := (h.flags / 4) % 2 == 1 || (h.flags / 8) % 2 == 1
+/-- `Hint::is_locked`: `flags & LOCKED != 0` -/
+def Hint.isLocked (h : Hint) : Bool := (h.flags / 16) % 2 == 1
+
+/-- first pass of `adjust` from index `i` with `saved` (newest first); `fuel` = remaining iterations (`len` suffices) -/
+def adjustPass1 (edges : List Hint) (len : Nat) (ora : Nat → Nat → Bool) : Nat → Nat → List Nat → Option (List Nat)
+  | 0, _, saved => some saved
+  | fuel + 1, i, saved =>
+    if i < len then
+      match getAt edges i with                                   -- `self.edges[i].is_pair()`
+      | none => none
+      | some ei =>
+        let isPair := ei.isPair
+        let j := if isPair then i + 1 else i
+        let r : Option (List Nat) :=
+          if !ei.isLocked then
+            match getAt edges j with                               -- `self.edges[j].ds_coord.fract()`
+            | none => none
+            | some _ =>
+              -- `j >= self.len - 1 || self.edges[j + 1].ds_coord >= …`
+              let up : Option Bool := if j ≥ len - 1 then some true else (getAt edges (j + 1)).map (fun _ => ora i 0)
+              match up with
+              | none => none
+              | some up =>
+                -- `i == 0 || self.edges[i - 1].ds_coord <= …` (evaluated on both paths)
+                let down : Option Bool := if i = 0 then some true else (getAt edges (i - 1)).map (fun _ => ora i 1)
+                match down with
+                | none => none
+                | some down =>
+                  let save : Bool := if up then false else if down then ora i 2 else true
+                  -- `if save_edge && j < self.len - 1 && !self.edges[j + 1].is_locked() { saved[saved_count] = …; saved_count += 1 }`
+                  if save ∧ j < len - 1 then
+                    match getAt edges (j + 1) with
+                    | none => none
+                    | some n =>
+                      if !n.isLocked then (if saved.length < MAX_HINTS then some (j :: saved) else none)
+                      else some saved
+                  else some saved
+          else some saved
+        match r with
+        | none => none
+        | some saved =>
+          -- `if i > 0 && self.edges[i].cs_coord != self.edges[i - 1].cs_coord`
+          match (if i > 0 then (getAt edges (i - 1)).map (fun _ => ()) else some ()) with
+          | none => none
+          | some _ =>
+            if isPair then
+              match getAt edges j with                             -- `self.edges[j]`, `self.edges[j - 1]` (= `edges[i]`)
+              | none => none
+              | some _ => adjustPass1 edges len ora fuel (i + 2) saved
+            else adjustPass1 edges len ora fuel (i + 1) saved
+    else some saved
+
+/-- second pass: `for (j, adjustment) in saved[..saved_count].iter().copied().rev()` (the `edges[j - 1]` access of a pair
+    is checked whenever `edges[j]` is a pair edge: the write it guards may or may not happen) -/
+def adjustPass2 (edges : List Hint) : List Nat → Option Unit
+  | [] => some ()
+  | j :: rest =>
+    match getAt edges (j + 1), getAt edges j with
+    | some _, some ej =>
+      if ej.isPair then
+        if j = 0 then none                                          -- `j - 1` on `usize`
+        else
+          match getAt edges (j - 1) with
+          | none => none
+          | some _ => adjustPass2 edges rest
+      else adjustPass2 edges rest
+    | _, _ => none
+
+/-- `HintMap::adjust` -/
+def adjust (m : Map) (ora : Nat → Nat → Bool) : Option Unit :=
+  match adjustPass1 m.edges m.len ora m.len 0 [] with
+  | none => none
+  | some saved => adjustPass2 m.edges saved
+
+/-- `HintMap::transform(coord)`: the two scans and the final `edges[i]` / `edges[0]` reads; `ge k` / `lt k` are the
+    outcomes of `coord >= edges[k].cs_coord` / `coord < edges[k].cs_coord`.  Returns the index used. -/
+def transformUp (edges : List Hint) (limit : Nat) (ge : Nat → Bool) : Nat → Nat → Option Nat
+  | 0, i => some i
+  | fuel + 1, i =>
+    if i < limit then
+      match getAt edges (i + 1) with
+      | none => none
+      | some _ => if ge (i + 1) then transformUp edges limit ge fuel (i + 1) else some i
+    else some i
+
+def transformDown (edges : List Hint) (lt : Nat → Bool) : Nat → Nat → Option Nat
+  | 0, i => some i
+  | fuel + 1, i =>
+    if i > 0 then
+      match getAt edges i with
+      | none => none
+      | some _ => if lt i then transformDown edges lt fuel (i - 1) else some i
+    else some i
+
+def transform (m : Map) (ge lt : Nat → Bool) : Option Nat :=
+  if m.len = 0 then some 0
+  else
+    match transformUp m.edges (m.len - 1) ge m.len 0 with
+    | none => none
+    | some i =>
+      match transformDown m.edges lt (i + 1) i with
+      | none => none
+      | some i =>
+        match getAt m.edges 0, getAt m.edges i with
+        | some _, some _ => some i
+        | _, _ => none
+
 end FontVerif.HintMap
